@@ -41,6 +41,31 @@ def check(ctx):
     ctx.rule("C16-E", "size estimates (which measure the decorator's prefixes) are computed only while rendering, with the "
              "rendering configuration's decorator")
     ctx.guard("C16-E", _w.rule_estimates_only_at_render, "C16-E")
+    ctx.rule("C16-F", "a block's marker comes from the decorator of the renderer the block is attached to: in the tree walk every "
+             "*_prefix call is made with the block's own sub-renderer off the stack — before it is pushed, or after it was "
+             "popped (a sub-block decorator may return different markers than its parent)")
+    ctx.guard("C16-F", rule_f)
+
+
+def rule_f(ctx):
+    F = ctx.facts
+    drn = F.one("do_render_node")
+    n = 0
+    for b in [drn] + [c for _x, c in transitive_closures(F, drn)]:
+        pcs = b.calls(lambda cd, t: callee_method(t) in PREFIX_METHODS and (ends(cd, RTRAIT + callee_method(t)) or ends(cd, "TextDecorator::" + callee_method(t))))
+        if not pcs:
+            continue
+        pushes = [bb for bb, t in b.calls(lambda cd, t: ends(cd, "TextRenderer::<D>::push"))]
+        pops = [bb for bb, t in b.calls(lambda cd, t: ends(cd, "TextRenderer::<D>::pop"))]
+        for bb, t in pcs:
+            n += 1
+            after_push = [p for p in pushes if bb in b.reach_from(p) and not any(b.dominates(q, bb) and q in b.reach_from(p) for q in pops)]
+            before_pop = [p for p in pops if not b.dominates(p, bb) and p in b.reach_from(bb)]
+            ctx.check(not after_push and not before_pop, "C16-F", "%s:%s-at-the-parent-renderer" % (fn_key(b), callee_method(t)), t["span"], b.id,
+                      "%s is called while the block's own sub-renderer is on top of the stack (%s): the marker is then asked of the "
+                      "sub-block decorator, while its width and the body width were computed with the parent's"
+                      % (callee_method(t), "after the push" if after_push else "before the pop"))
+    ctx.floor("C16-F", "prefix calls in the tree walk", n, 6)
 
 
 def is_prefix_source(a):
